@@ -26,7 +26,7 @@ import (
 // C06 harness: the real StreamForwarder (default mode) / handleStream's LCM branch between an in-memory initiator stream
 // and an in-memory source stream, inside a synctest bubble.
 //
-//	N default|lcm ignoreclose=0|1 [openblock=1]    new scenario (openblock: opening the source stream blocks)
+//	N default|lcm ignoreclose=0|1 [openblock=1|closewedge=1]    new scenario (openblock: opening the source stream blocks; closewedge: CloseSend on it never returns by itself)
 //	s <id> | su | se | sx             the source sends a message / an unknown kind / EOF / an error
 //	i <id> | iu | ie | ix | ic        the initiator sends a sync state / unknown kind / EOF / error / cancels its context
 //	fi | fs                           from now on Send to the initiator / to the source fails
@@ -38,6 +38,12 @@ func vfwScenario(t *testing.T, lines []string, out func(string)) {
 	f0 := strings.Fields(lines[0])
 	mode := f0[1]
 	client := &vfAdminClient{ignoreCloseSend: len(f0) > 2 && f0[2] == "ignoreclose=1"}
+	for _, opt := range f0[2:] {
+		if opt == "closewedge=1" {
+			// the source transport is wedged: CloseSend does not return until the stream's context ends
+			client.closeSendWedge = true
+		}
+	}
 	if len(f0) > 3 && f0[3] == "openblock=1" {
 		// the source connection is still being established: opening the source stream blocks
 		client.openBlock = make(chan struct{})
